@@ -949,6 +949,12 @@ func (dsc *dataStoreCommand) restore(keyName, serializedData string, ttl int64, 
 		return
 	}
 
+	// the value length the payload declares has to fit in the payload
+	if declared := binary.BigEndian.Uint32(content[2:6]); declared > 0 && uint64(declared)-1 > uint64(len(content)-6) {
+		output.data = respErrorString("ERR DUMP payload version or checksum are wrong")
+		return
+	}
+
 	var expiration time.Time
 	if ttl != 0 {
 		if absttl {
